@@ -569,13 +569,12 @@ def _per_ctor(run, P, f: Func):
             elif not (isinstance(v, ast.Call) and dotted(v.func) and
                       (dotted(v.func).startswith("type(") or dotted(v.func) == "type")) \
                     and not isinstance(v, ast.Call):
-                run.ob("C07.order", f, n.ast, False,
-                       construct=f"{norm(n.ast)} returns something that is neither the "
-                                 f"unchanged expression nor a variable introduced in "
-                                 f"this invocation",
-                       why="reusing a variable created for another occurrence (a memo) "
-                           "ignores the guard under which it was assigned: it may be "
-                           "read unset or stale")
+                # a variable made for an earlier occurrence is handed back (a memo).  That is
+                # sound exactly when the earlier assignment dominates this occurrence and
+                # nothing it reads was written in between - facts about the program being
+                # rewritten that the table's scoping has to establish; not decided here
+                raise AnalysisError(f"{f.qualname}: {norm(n.ast)} hands back a value that was not "
+                                    f"made in this invocation (a memo); not decided")
             elif isinstance(v, ast.Call) and not (dotted(v.func) in ("var", "Variable")) \
                     and not norm(v.func).startswith("type("):
                 run.ob("C07.order", f, n.ast, False,
